@@ -112,6 +112,12 @@ func (p propC04) Gen(r *Rng, tier string) *World {
 	if r.P(0.3) {
 		w.Extra["sibling"] = "1"
 	}
+	if r.P(0.4) {
+		w.Extra["lazy_get"] = "1"
+	}
+	if r.P(0.3) {
+		w.Extra["slice_fetcher"] = "1"
+	}
 	if w.Cfg.Undefined && r.P(0.4) {
 		w.Extra["real_fetcher"] = "1"
 	} else if p.id == "C04" && r.P(0.15) {
@@ -278,6 +284,9 @@ func (pr propC04) Run(w *World, st *Stats) *Violation {
 			if w.Extra["sibling"] == "1" {
 				c.Extra["sibling"] = "1"
 			}
+			if w.Extra["lazy_get"] == "1" {
+				c.Extra["lazy_get"] = "1"
+			}
 			return c
 		}
 
@@ -324,9 +333,15 @@ func (pr propC04) Run(w *World, st *Stats) *Violation {
 				p.Clock = clock
 			}
 			p.Unavail = unavail
-			for _, n := range unavail {
-				delete(p.Bind, n)
+			if w.Extra["lazy_get"] != "1" {
+				for _, n := range unavail {
+					delete(p.Bind, n)
+				}
 			}
+			// (lazy_get: the store still holds the true value of a variable that
+			// is not cached — Get would be the expensive remote call and would
+			// succeed. TryEval has no business making it; if it does, its answer is
+			// judged like any other.)
 			if failAt >= 0 {
 				p.FailAt = []int{failAt}
 			}
@@ -346,8 +361,14 @@ func (pr propC04) Run(w *World, st *Stats) *Violation {
 				// undefined-variable mode): a variable is available iff it is in
 				// the map handed over
 				vals := map[string]interface{}{}
+				gone := map[string]bool{}
+				for _, n := range unavail {
+					gone[n] = true
+				}
 				for n, v := range p.Bind {
-					vals[n] = v.Go()
+					if !gone[n] { // (under lazy_get the plan still holds their values)
+						vals[n] = v.Go()
+					}
 				}
 				env := NewEnv(ops, &p)
 				env.Phase = "tryeval"
@@ -633,6 +654,67 @@ func (pr propC04) Run(w *World, st *Stats) *Violation {
 				}
 				if v := sound(unavail, o.Val, -1); v != nil {
 					return v
+				}
+			}
+			// The library's own slice-backed fetcher is truthful in one way: a key
+			// beyond the slice (a variable registered after the context was built)
+			// is not cached. Contexts built before the k variables with the largest
+			// keys were registered make exactly those unavailable.
+			if w.Extra["slice_fetcher"] == "1" && w.EnumSplits && !w.Cfg.Undefined {
+				eligible := len(w.Cfg.Vars) >= 2
+				for _, v := range w.Cfg.Vars {
+					if !v.Reg || v.Key < 0 || v.Key > 255 {
+						eligible = false
+					}
+				}
+				if eligible {
+					byKey := append([]VarSpec(nil), w.Cfg.Vars...)
+					sort.Slice(byKey, func(i, j int) bool { return byKey[i].Key < byKey[j].Key })
+					for k := 1; k < len(byKey); k++ {
+						early := w.Cfg
+						early.Vars = byKey[:len(byKey)-k]
+						var unavail []string
+						late := map[string]bool{}
+						for _, v := range byKey[len(byKey)-k:] {
+							late[v.Name] = true
+						}
+						for _, v := range vars {
+							if late[v] {
+								unavail = append(unavail, v)
+							}
+						}
+						p := full.Clone()
+						p.Kind = api
+						p.Unavail = unavail
+						vals := map[string]interface{}{}
+						for n, v := range p.Bind {
+							if !late[n] {
+								vals[n] = v.Go()
+							}
+						}
+						ehost := &OpHost{Specs: ops}
+						earlyCC := BuildConfig(&early, ehost, mask, true)
+						ctx := eval.NewCtxFromVars(earlyCC, vals)
+						if _, isSlice := ctx.VariableFetcher.(eval.SliceVarFetcher); !isSlice {
+							continue
+						}
+						env := NewEnv(ops, &p)
+						c.Host.CompileEnv = env
+						o := c.RunCtx(ctx, env, api)
+						c.Host.CompileEnv = nil
+						st.Evals++
+						st.Probe("real_slice_fetcher_probes")
+						if v := judge(&p, &o, unavail); v != nil {
+							v.Msg = "[context built by NewCtxFromVars before the unavailable variables were registered: slice-backed fetcher] " + v.Msg
+							v.World = mw
+							return v
+						}
+						if !isC05 && isDefinite(&o, api) && len(unavail) > 0 {
+							if v := sound(unavail, o.Val, -1); v != nil {
+								return v
+							}
+						}
+					}
 				}
 			}
 			if !isC05 {
